@@ -39,6 +39,8 @@ func serialOf(class string) *big.Int {
 		return big.NewInt(0)
 	case "s1":
 		return big.NewInt(1)
+	case "s8", "s9", "s10": // small serials whose decimal spellings with a leading zero also read as octal
+		return map[string]*big.Int{"s8": big.NewInt(8), "s9": big.NewInt(9), "s10": big.NewInt(10)}[class]
 	case "s255":
 		return big.NewInt(255)
 	case "s256":
@@ -74,15 +76,24 @@ type certBody struct {
 
 // universe is the finite world of one run: owners, serial classes, and `bodies` distinct real certificates
 // (distinct ECDSA keys) for every (owner, serial).
+// spelling is one way a request may SPELL a serial number: the text put in MsgRevokeCertificate.ID.Serial or
+// CertificateFilter.Serial, and the serial class its decimal reading names ("other": a decimal number that is no
+// class of the run; "invalid": not a decimal number). The reading is decided by the check, never by the code.
+type spelling struct {
+	Sp string `json:"sp"`
+	Rd string `json:"rd"`
+}
+
 type universe struct {
-	Owners  []string
-	Serials []string
-	Bodies  int      // self-issued bodies 1..Bodies for every (owner, serial)
-	Foreign []string // serial classes that also have body Bodies+1: subject = owner, ISSUER = another owner
-	addr    map[string]sdk.AccAddress
-	certs   map[string]*certBody // key owner|serial|body
-	byPEM   map[string]*certBody
-	bySer   map[string]string // decimal serial -> class
+	Spellings []spelling
+	Owners    []string
+	Serials   []string
+	Bodies    int      // self-issued bodies 1..Bodies for every (owner, serial)
+	Foreign   []string // serial classes that also have body Bodies+1: subject = owner, ISSUER = another owner
+	addr      map[string]sdk.AccAddress
+	certs     map[string]*certBody // key owner|serial|body
+	byPEM     map[string]*certBody
+	bySer     map[string]string // decimal serial -> class
 }
 
 var authVersionOID = asn1.ObjectIdentifier{2, 23, 133, 2, 6}
@@ -155,7 +166,9 @@ func newUniverseAt(owners, serials []string, bodies int, foreign []string, addrs
 	return u, nil
 }
 
-func (u *universe) cert(o, s string, b int) *certBody { return u.certs[fmt.Sprintf("%s|%s|%d", o, s, b)] }
+func (u *universe) cert(o, s string, b int) *certBody {
+	return u.certs[fmt.Sprintf("%s|%s|%d", o, s, b)]
+}
 
 // makeCert builds a real client certificate the way testutil.Certificate / `akash tx cert create` do, with
 // the given serial number and subject CommonName = bech32(owner). With issuer = owner it is self-signed; else it
